@@ -10,7 +10,8 @@
 From Coq Require Import List Bool NArith PeanoNat.
 Import ListNotations.
 Require Import PV.Binder.Kind PV.Gen.Kinds PV.Binder.Sig PV.Binder.Bind PV.Binder.PyBind.
-Require Import PV.Proofs.BinderConcrete PV.Proofs.BinderValid PV.Proofs.BinderStar PV.Proofs.BinderMain PV.Proofs.BinderDef.
+Require Import PV.Proofs.BinderConcrete PV.Proofs.BinderValid PV.Proofs.BinderStar PV.Proofs.BinderMain PV.Proofs.BinderDef PV.Proofs.BinderGen.
+Require Import PV.Gen.BinderShape.
 Open Scope N_scope.
 
 (* 1. Concrete call shapes: for EVERY valid signature (any number of parameters,
@@ -104,3 +105,15 @@ Print Assumptions C05_valid_sig_shape.
 Theorem C05_valid_sig_matches_def : forall s, valid_sig s = def_header_ok s.
 Proof. exact valid_sig_matches_def. Qed.
 Print Assumptions C05_valid_sig_matches_def.
+
+(* 7. Tie to the current source: the four rejecting checks after the loop of
+      Signature.bind_arguments, as translated from signature.py on this run
+      (Gen/BinderShape.v, gen_finish), are the ones of the model; all theorems above are
+      therefore about the loop model followed by the GENERATED final checks. *)
+Theorem C05_bind_uses_generated_finish : forall s a,
+  bind s a = match bind_params a init_state s with
+             | None => None
+             | Some st => if gen_finish a st then Some (rev (bound st)) else None
+             end.
+Proof. exact bind_uses_generated_finish. Qed.
+Print Assumptions C05_bind_uses_generated_finish.
